@@ -51,6 +51,16 @@ func (w *World) rangeScope(fn *ssa.Function) func(p token.Pos) bool {
 			if err != nil {
 				return func(token.Pos) bool { return true }
 			}
+			// a function whose difference from the reference is not a reviewed, classified delta (a
+			// reference statement changed or lost) is no longer "the reference's": its whole body carries
+			// obligations, as if it were fork code
+			scratch := newReport("scope")
+			s.deltaRule(scratch, "scope", pair, name, pr)
+			for _, o := range scratch.Obls {
+				if o.Status != Holds {
+					return func(token.Pos) bool { return true }
+				}
+			}
 			var spans [][2]token.Pos
 			for _, in := range d.Ins {
 				if in.Stmt != nil {
@@ -181,7 +191,7 @@ func checkC03(w *World, tier string) *Report {
 		"R3.2 a pointer field of a precompile instance that the shared table leaves nil (contextWriter.ctx) is dereferenced only under a dominating non-nil test; " +
 		"R3.3 fork-only code contains no explicit panic and no single-result type assertion; " +
 		"R3.4 bookkeeping is closed on every path: deferred ExitCall (C07 R7.1), depth restored by the clone of Run; " +
-		"R3.5 (forward must-analysis on the SSA CFG, load-numbered field cells) a pointer, interface or map field that some construction in the fork leaves unset, or into which nil is stored (EVMInterpreter.hasher, CallTree.current/root, Call.Parent, StorageKey.changes …), is dereferenced in fork-only code only where every path has tested it non-nil or assigned it a non-nil value with no possible re-assignment in between. Memory.Copy's bounds rest on a stated interpreter-contract assumption tied to a who-may-call obligation. Host callbacks, StateDB and the Aspect runtime are outside the analysed program."
+		"R3.5 (forward must-analysis on the SSA CFG, load-numbered field cells) a pointer, interface or map field that some construction in the fork leaves unset, or into which nil is stored (EVMInterpreter.hasher, CallTree.current/root, Call.Parent, StorageKey.changes …), is dereferenced in fork-only code only where every path has tested it non-nil or assigned it a non-nil value with no possible re-assignment in between. R3.6 code identity at every frame construction: the code hash and the code handed to SetCallCode are read from the StateDB for the same address — the JUMPDEST analysis is cached per code hash and shared between frames, so a hash that belongs to other code makes a later JUMP index a bitmap of the wrong length. Memory.Copy's bounds rest on a stated interpreter-contract assumption tied to a who-may-call obligation. Host callbacks, StateDB and the Aspect runtime are outside the analysed program."
 	targets := w.rangeTargets(pkVM)
 	n := addRangeRule(w, r, "R3.1", targets, func(fn *ssa.Function) bool { return !fnIn("vm.(*bls12381G2MultiExp).Run")(fn) })
 	r.Analysed["bounds_obligations"] = n
@@ -192,8 +202,123 @@ func checkC03(w *World, tier string) *Report {
 	addR71(w, r, "R3.4")
 	addNilFieldRule(w, r, "R3.5", targets, nil)
 	r.need("R3.5", 8)
+	addCodeIdentityRule(w, r, "R3.6")
+	addNoUnsafeRule(w, r, "R3.7")
 	r.Assumptions = append(r.Assumptions, "initialised host: BlockContext.BlockNumber non-nil, Aspect provider and context callbacks set (stated in the property)", "values handed to EVM.Call/Create by the host fit 256 bits (uint256.MustFromBig)", assumedPre["(*P0.Memory).Copy"].why)
 	return r
+}
+
+// addNoUnsafeRule: no file of the fork packages that contains fork-only or modified functions uses package
+// unsafe (the reference's own files that do are the reference's). unsafe.String / unsafe.Slice views of
+// interpreter memory would hand the host or the recorder a value that later writes by the program change.
+func addNoUnsafeRule(w *World, r *Report, rule string) {
+	n := 0
+	var bad []string
+	refImports := map[string]bool{} // base names of reference files importing unsafe
+	for i := range pkgPairs {
+		if rp := w.Pkgs[refPath(i)]; rp != nil {
+			for _, f := range rp.Syntax {
+				for _, im := range f.Imports {
+					if im.Path.Value == `"unsafe"` {
+						fn := w.Fset.Position(f.Pos()).Filename
+						refImports[fn[strings.LastIndex(fn, "/")+1:]] = true
+					}
+				}
+			}
+		}
+	}
+	for path, p := range w.Pkgs {
+		if !strings.HasPrefix(path, forkMod) {
+			continue
+		}
+		for _, f := range p.Syntax {
+			n++
+			for _, im := range f.Imports {
+				if im.Path.Value == `"unsafe"` {
+					fn := w.Fset.Position(f.Pos()).Filename
+					if !refImports[fn[strings.LastIndex(fn, "/")+1:]] {
+						bad = append(bad, w.pos(im.Pos()))
+					}
+				}
+			}
+		}
+	}
+	sort.Strings(bad)
+	if len(bad) > 0 {
+		r.violated(rule, "no-unsafe", bad[0], "package unsafe is imported by fork files ("+strings.Join(bad, ", ")+"): unsafe views of live interpreter memory defeat the copy discipline the recorder and the host interface rely on")
+	} else {
+		r.holds(rule, "no-unsafe", "-", fmt.Sprintf("%d files of the fork packages scanned: none imports unsafe (beyond files that do so in the reference)", n))
+	}
+	r.need(rule, 1)
+}
+
+// addCodeIdentityRule: in every call of Contract.SetCallCode the hash argument is GetCodeHash(a) and the
+// code argument is GetCode(a) for one and the same address value a.
+func addCodeIdentityRule(w *World, r *Report, rule string) {
+	resolve := func(v ssa.Value) ssa.Value {
+		for i := 0; i < 6; i++ {
+			u, ok := v.(*ssa.UnOp)
+			if !ok || u.Op != token.MUL {
+				return v
+			}
+			a, ok := u.X.(*ssa.Alloc)
+			if !ok {
+				return v
+			}
+			var stored ssa.Value
+			n := 0
+			for _, rf := range *a.Referrers() {
+				if st, ok := rf.(*ssa.Store); ok && st.Addr == ssa.Value(a) {
+					stored = st.Val
+					n++
+				}
+			}
+			if n != 1 {
+				return v
+			}
+			v = stored
+		}
+		return v
+	}
+	stateRead := func(v ssa.Value, method string) (ssa.Value, bool) {
+		v = resolve(v)
+		c, ok := v.(*ssa.Call)
+		if !ok || !c.Call.IsInvoke() || c.Call.Method.Name() != method || len(c.Call.Args) != 1 {
+			return nil, false
+		}
+		return resolve(c.Call.Args[0]), true
+	}
+	n := 0
+	for _, fn := range w.Funcs(forkPath(pkVM)) {
+		ord := 0
+		for _, b := range fn.Blocks {
+			for _, ins := range b.Instrs {
+				c, ok := ins.(*ssa.Call)
+				if !ok {
+					continue
+				}
+				cal := c.Call.StaticCallee()
+				if cal == nil || cal.Name() != "SetCallCode" || len(c.Call.Args) != 4 {
+					continue
+				}
+				ord++
+				n++
+				key := fmt.Sprintf("%s/SetCallCode#%d", relName(fn), ord)
+				ha, okH := stateRead(c.Call.Args[2], "GetCodeHash")
+				ca, okC := stateRead(c.Call.Args[3], "GetCode")
+				switch {
+				case !okH || !okC:
+					r.undecided(rule, key, w.pos(c.Pos()), "the hash / code arguments are not direct StateDB.GetCodeHash / GetCode reads; their agreement cannot be read off")
+				case ha != ca:
+					r.violated(rule, key, w.pos(c.Pos()), "the code hash is read for "+ha.String()+" but the code for "+ca.String()+": the per-hash JUMPDEST bitmap cached for one piece of code would be used to validate jumps in another (index out of range on a longer code)")
+				default:
+					r.holds(rule, key, w.pos(c.Pos()), "hash and code are read for the same address value")
+				}
+			}
+		}
+	}
+	r.need(rule, 4)
+	_ = n
 }
 
 // addNilCtxRule: methods of types implementing ContextfulPrecompiledContract dereference a pointer
@@ -331,6 +456,8 @@ func checkC09(w *World, tier string) *Report {
 		"R9.2 the recorder is called at most once per path, after all validation returns: no error return is reachable after it other than its own result; " +
 		"R9.3 (positional-bytes lint) no zero-stripping Int.Bytes() is used inside the journal instructions where byte position matters (storage words, slot numbers); the fixed-width forms are used instead (positive control: the lint must see the stripped form used for balances in the recorder); " +
 		"R9.4 (provenance) the storage word journaled is read with the same slot operand and the same account that the entry is filed under, and the offset passed to the recorder is the operand the slice bounds were computed from. " +
+		"R9.8 storage is read through the EVM's current StateDB field; R9.9 (justified refusals, the dual of R9.1) every edge into an error return of the value journal entails that the operand pair is invalid — the offset is 32 or more, the field would start before byte 0 of the word, or a 256-bit operand does not fit 64 bits — so no valid (offset, width) is rejected. " +
+		"R9.10 (abstract interpretation of the string-header decoder over a bit-slice domain (W >> s) & m, all paths) the encoding flag tested is bit 0 of the word; on the in-place path the returned length is (W >> 1) & m with m within bits 1..7 of the word (the length byte) and covering lengths up to 31; on the out-of-place path it is the whole word shifted right by one. " +
 		"Not decided: that word[32-o-w:32-o] is the right field; that the long-string loop reads slots keccak(slot)+0..n-1 and truncates to the length (read: it pre-increments and does not truncate — value-level, recorded in DESIGN section 6)."
 	fam := fnIn("vm.opValueChangeJournal", "vm.opReferenceChangeJournal")
 	targets := w.rangeTargets(pkVM)
@@ -457,7 +584,21 @@ func checkC09(w *World, tier string) *Report {
 	addLayoutRule(w, r, "R9.5")
 	addLengthAgreementRule(w, r, "R9.6")
 	addSlotProgressionRule(w, r, "R9.7")
-	r.need("R9.5", 2)
+	addStateSourceRule(w, r, "R9.8")
+	addHeaderBitsRule(w, r, "R9.10")
+	addSaveChangeLookupRule(w, r, "R10.7") // the entry is filed under the key found for this instruction's own account/slot/offset/type (shared with C10)
+	addJustifiedRefusalRule(w, r, "R9.9", []string{"opValueChangeJournal"}, func(a *ranger) []negGoal {
+		// domain constraint of the instruction: a byte offset inside a 32-byte word is at most 31
+		var out []negGoal
+		if save, n, _ := journalSave(a.fn); n == 1 && len(save.Call.Args) >= 4 {
+			for _, o := range u64Of(a.fn, save.Call.Args[3]) {
+				out = append(out, negGoal{"the offset operand is 32 or more (not a position inside a storage word)", konst64(32).minus(a.lin(o, save.Block()))})
+			}
+		}
+		return out
+	})
+	r.need("R9.9", 2)
+	r.need("R9.5", 3)
 	r.need("R9.6", 2)
 	r.need("R9.7", 2)
 	return r
@@ -522,6 +663,7 @@ func checkC14(w *World, tier string) *Report {
 		"R14.4 success implies the host was consulted: every return with a nil error is dominated by the call into the Aspect runtime, and the readers' output is data-dependent on that call's result; " +
 		"R14.5 the address given to SetAspectContext is ctx.from, and the only ExecutionContext constructed in the fork sets from = caller.Address() of EVM.Call; " +
 		"R14.6 RequiredGas of each returns one compile-time constant; " +
+		"R14.8 (justified refusals, the dual of R14.2) every edge into an error return of the ABI decoder loadParamBytes entails that a slice of the payload would end beyond it, or that a 256-bit head/length word does not fit 64 bits — a well-formed payload whose data ends exactly at the end of the input is not rejected; " +
 		"R14.7 the caller context never reaches the shared table instance: CloneWithCtx of a context-carrying precompile returns a fresh allocation holding the context it was given, and no method of such a type stores through its receiver — otherwise the context of one CALL would stay in the package-level table and later DELEGATECALL/CALLCODE/STATICCALLs (which pass no context) would write under that earlier caller's address. Not decided: that ABI decoding extracts the right bytes of well-formed payloads, the exact-length policy of the hash payload, behaviour of the Aspect runtime."
 	vm := w.Pkgs[forkPath(pkVM)]
 	info := vm.TypesInfo
@@ -667,6 +809,9 @@ func checkC14(w *World, tier string) *Report {
 	}
 	addExecCtxRule(w, r, "R14.5")
 	addCtxCloneRule(w, r, "R14.7")
+	addJustifiedRefusalRule(w, r, "R14.8", []string{"loadParamBytes"}, nil)
+	addNoUnsafeRule(w, r, "R3.7") // keys and values handed to the host are copies: no unsafe string/slice views of the caller's memory
+	r.need("R14.8", 4)
 	r.need("R14.4", 3)
 	r.need("R14.5", 2)
 	r.need("R14.6", 3)
@@ -894,7 +1039,10 @@ func checkC19(w *World, tier string) *Report {
 	r := newReport("C19")
 	r.Explanation = "Structural necessary condition 'finish without panic' only: R19.1 (E3) every index/slice obligation in the fork-only functions of tracers/native and in the fork insertions of its modified functions (CaptureAspectEnter/Exit, CaptureExit, clearFailedLogs, flatFromNested, flatAspectNested, newFlatJoinPoint …) is entailed by the dominating guards, given the reviewed field invariant len(callTracer.callstack) >= 1 (R19.0, checked inductively: the constructor makes one frame and the only shrinking store keeps size-1 >= 1 elements); plus the inherited flatCallTracer.CaptureExit, whose safety rested on a callee postcondition the fork changed. Inherited tracer code that is a clone of the reference is the reference's (C18) and is not re-analysed. " +
 		"R19.2 (resolved AST of the flattening functions) the collections summed into a frame's Subtraces are exactly the collections whose elements are emitted recursively, a collection ranged over once is emitted unconditionally and one ranged over twice is split by complementary skip conditions — so the declared sub-trace count equals the number of children emitted by that step and no child is emitted twice or dropped; R19.3 nil-field must-analysis (as C03 R3.5) on the same functions; R19.4 (may-alias roots through result summaries) the trace address handed to every recursive emission in the flattening functions is a fresh slice — it shares storage neither with the parent's address nor with a sibling's, so addresses stored in emitted frames cannot be overwritten by later appends; R19.5 state that is set when an Aspect execution is entered and reset when it is left (the 'an Aspect is running' marker consulted by CaptureExit) is stored in the frame record (an element of the call stack), never in the tracer itself: Aspect executions of different open frames interleave, so a tracer-wide marker is cleared by an inner Aspect's exit while the outer one still runs. " +
-		"Not decided: which open Aspect frame an exit is matched to, exactly-once emission, sub-trace counts and trace-address uniqueness — properties of event histories, outside static reach."
+		"R19.6 in the flattening functions the address operator is never applied to a range variable (one variable per loop under the module's language version: frames built from it would all point at the last element); R19.7 the sibling flattening functions discard a frame's Result under the same guard, a condition over the input record only. " +
+		"R19.8 (E3 entailment) every write CaptureAspectExit makes into an element of a frame's JoinPoints addresses the element opened last (index len-1) — Aspect executions of one call frame do not nest, so that is the execution the exit event completes. " +
+		"R19.9 a call frame on the tracer's stack is never overwritten wholesale and its JoinPoints list is only appended to by CaptureAspectEnter: Aspect executions recorded before CaptureStart (pre-transaction join points) or before a later event survive. " +
+		"Not decided: exactly-once emission, sub-trace counts and trace-address uniqueness — properties of event histories, outside static reach."
 	targets := w.rangeTargets(pkNative)
 	ownTargets := append([]*ssa.Function{}, targets...) // the nil-field rule is for fork code only; the inherited extra target keeps the reference's own invariants (a CALL frame always has a destination)
 	for name := range extraRangeTargets {
@@ -910,6 +1058,10 @@ func checkC19(w *World, tier string) *Report {
 	addNilFieldRule(w, r, "R19.3", ownTargets, nil)
 	addSubtraceRule(w, r, "R19.2")
 	addTraceAddressRule(w, r, "R19.4")
+	addLoopVarAddressRule(w, r, "R19.6")
+	addSiblingGuardRule(w, r, "R19.7")
+	addExitClosesLastRule(w, r, "R19.8")
+	addNoFrameOverwriteRule(w, r, "R19.9")
 	addFrameScopedMarkerRule(w, r, "R19.5")
 	r.Assumptions = append(r.Assumptions, "the EVM emits well-nested event streams (C18 R18.2 capture balance)")
 	return r
@@ -1056,6 +1208,72 @@ func addFrameScopedMarkerRule(w *World, r *Report, rule string) {
 	r.need(rule, 1)
 }
 
+// addNoFrameOverwriteRule: no store of a whole callFrame into an element of callTracer.callstack, and
+// JoinPoints is assigned only by appending to itself.
+func addNoFrameOverwriteRule(w *World, r *Report, rule string) {
+	var bad []string
+	nApp := 0
+	for _, top := range w.Funcs(forkPath(pkNative)) {
+		// the tracers' event handlers (methods of the call tracers), not the JSON codecs of the frame types
+		if top.Signature.Recv() == nil || !strings.HasSuffix(strings.ToLower(typeBaseName(top.Signature.Recv().Type())), "calltracer") {
+			continue
+		}
+		for _, fn := range withAnon(top) {
+			for _, b := range fn.Blocks {
+				for _, ins := range b.Instrs {
+					st, ok := ins.(*ssa.Store)
+					if !ok {
+						continue
+					}
+					switch a := st.Addr.(type) {
+					case *ssa.IndexAddr:
+						if typeBaseName(st.Val.Type()) == "callFrame" {
+							if u, ok := a.X.(*ssa.UnOp); ok && u.Op == token.MUL {
+								if fa, ok := u.X.(*ssa.FieldAddr); ok && strings.HasSuffix(fieldID(fa), "callTracer.callstack") {
+									bad = append(bad, relName(fn)+" overwrites a whole frame of the call stack at "+w.pos(st.Pos())+" (Aspect executions already attached to it are lost)")
+								}
+							}
+						}
+					case *ssa.FieldAddr:
+						if strings.HasSuffix(fieldID(a), "callFrame.JoinPoints") {
+							okApp := false
+							switch v := st.Val.(type) {
+							case *ssa.Call:
+								if bi, isB := v.Call.Value.(*ssa.Builtin); isB && bi.Name() == "append" {
+									okApp = true
+									nApp++
+								}
+							case *ssa.MakeSlice:
+								okApp = true // initial empty list
+							case *ssa.Slice:
+								if _, fresh := v.X.(*ssa.Alloc); fresh {
+									okApp = true // make with constant sizes: a slice of a fresh array
+								}
+							}
+							if _, isAlloc := a.X.(*ssa.Alloc); isAlloc {
+								okApp = true // a frame under construction / a local copy
+							}
+							if !okApp {
+								bad = append(bad, relName(fn)+" assigns a frame's JoinPoints something other than an append to it at "+w.pos(st.Pos()))
+							}
+						}
+					}
+				}
+			}
+		}
+	}
+	sort.Strings(bad)
+	if len(bad) > 0 {
+		r.violated(rule, "frame-overwrite", "-", strings.Join(bad, "; "))
+	} else {
+		r.holds(rule, "frame-overwrite", "-", fmt.Sprintf("no whole-frame store into the call stack; JoinPoints only grows by append (%d sites)", nApp))
+	}
+	if nApp == 0 {
+		r.undecided(rule, "frame-overwrite/anchor", "-", "no append to a frame's JoinPoints found: the rule's anchor does not resolve")
+	}
+	r.need(rule, 1)
+}
+
 // addCallstackInvariant: len(callTracer.callstack) >= 1 is established by the constructor and kept by every store.
 func addCallstackInvariant(w *World, r *Report, rule string) {
 	env := w.rangeEnv()
@@ -1100,7 +1318,7 @@ func checkC20(w *World, tier string) *Report {
 		"R20.1 every loop's exit test compares an induction variable with a bound that is a constant or entailed to be at most the length of an existing buffer/collection (ranges over existing maps/slices are bounded by construction); " +
 		"R20.2 every make size and every Memory.GetCopy size is a constant or entailed to be at most the length of an existing buffer — so no instruction copies, hashes or allocates an attacker-chosen amount for its flat fee; " +
 		"R20.4 a fork instruction that declares a memorySize (making the interpreter allocate up to an operand-chosen size before it runs) has a dynamicGas function that reads that size; calls of the padding helpers getData / common.RightPadBytes / LeftPadBytes count as allocations of their size argument under R20.2; " +
-		"R20.3 the flat fee itself is C12 R12.3; inherited instructions are clones of the reference (their metering is the reference's, C02). Constants of proportionality and work done inside host callbacks are not decided."
+		"R20.3 the flat fee itself is C12 R12.3; the metering of inherited instructions and precompiles is the reference's: every gas and memory-size function, every RequiredGas, RunPrecompiledContract, UseGas, Memory.Resize and the interpreter loop (which charges before it resizes memory) is an SSA clone of go-ethereum v1.12.0. Constants of proportionality and work done inside host callbacks are not decided."
 	var roots []*ssa.Function
 	for _, js := range w.journalSlots() {
 		if fn := w.Func(forkPath(pkVM), js.execute); fn != nil {
@@ -1222,5 +1440,17 @@ func checkC20(w *World, tier string) *Report {
 		}
 	}
 	r.need("R20.4", 9)
+	// R20.3: the metering of inherited instructions and precompiles is the reference's
+	s := w.e1()
+	meterFiles := map[string]bool{"gas_table.go": true, "gas.go": true, "operations_acl.go": true, "memory_table.go": true, "common.go": true,
+		"analysis.go": true, "contract.go": true} // the JUMPDEST analysis and its per-frame caching bound the work of every JUMP
+	s.cloneRule(r, "R20.3", pkVM, func(name string, pr *PairResult) bool {
+		f := w.Fset.Position(pr.Fork.Pos()).Filename
+		if meterFiles[f[strings.LastIndex(f, "/")+1:]] {
+			return true
+		}
+		return strings.HasSuffix(name, ".RequiredGas") || name == "(*EVMInterpreter).Run" || name == "RunPrecompiledContract" || name == "(*Contract).UseGas" || name == "(*Memory).Resize"
+	})
+	r.need("R20.3", 50)
 	return r
 }
